@@ -5,6 +5,7 @@ import (
 	"encoding/binary"
 	"errors"
 	"fmt"
+	"math"
 	"sync"
 	"time"
 
@@ -28,7 +29,8 @@ type FetchOutcome struct {
 	Chunk int `json:"chunk,omitempty"`
 	// Err selects the flavour of a listerr/chunkerr failure: "" generic error | deadline (wraps
 	// context.DeadlineExceeded) | da-deadline (coreda.ErrContextDeadline) | hang (blocks until the
-	// caller's context ends, then returns its error) | timeout (coreda.ErrTxTimedOut) | notfound (coreda.ErrBlobNotFound)
+	// caller's context ends, then returns its error) | timeout (coreda.ErrTxTimedOut) | notfound (coreda.ErrBlobNotFound) |
+	// lagging / nomethod (plain errors whose text says "... not found" about something else than blobs)
 	Err string `json:"err,omitempty"`
 }
 
@@ -43,6 +45,13 @@ func (d *DADbl) fetchErr(ctx context.Context, o FetchOutcome, what string) error
 	case "notfound":
 		// a DA node that lists the ids of a height but cannot serve (all of) the blobs yet
 		return fmt.Errorf("dadbl: %s: %w", what, coreda.ErrBlobNotFound)
+	case "lagging":
+		// a DA node that has not synced the height yet (the wording of a header store)
+		return errors.New("header: not found")
+	case "nomethod":
+		// an endpoint that is up while its DA module is not registered yet (a restarting DA node), or a
+		// gateway in front of it
+		return errors.New("RPC error (-32601): method 'da." + map[bool]string{true: "GetIDs", false: "Get"}[what == "listing"] + "' not found")
 	case "hang":
 		<-ctx.Done()
 		return ctx.Err()
@@ -265,6 +274,11 @@ func (d *DADbl) SubmitWithOptions(ctx context.Context, blobs []coreda.Blob, gasP
 	}
 	if err := ctx.Err(); err != nil {
 		return nil, err
+	}
+	if math.IsInf(gasPrice, 0) || math.IsNaN(gasPrice) {
+		// what the node's DA client (da/jsonrpc, encoding/json underneath) answers for a price that has no
+		// wire encoding: the request never reaches the DA layer
+		return nil, fmt.Errorf("json: unsupported value: %v", gasPrice)
 	}
 	d.mu.Lock()
 	kind := "other"
